@@ -182,7 +182,7 @@ def body_gemini_urlparse(raises: bool, pidx: int, query: bool) -> bool:
     p = gemini.GeminiProtocol("gemini://[/x\r\n", hx.make_server(cfg), hx.make_rh(True), None, w, cfg)
     saved = HM.getHandler
     HM.getHandler = _stub_layer("not-found", 0, cfg)
-    gemini.urllib = hx.ns(parse=hx.ns(urlparse=urlparse, unquote=urllib.parse.unquote, quote=urllib.parse.quote))
+    gemini.urllib = hx.ns(parse=hx.ns(urlparse=urlparse, unquote=urllib.parse.unquote, quote=urllib.parse.quote, unquote_plus=urllib.parse.unquote_plus, urlsplit=urllib.parse.urlsplit))
     try:
         try:
             p.handle()
